@@ -29,15 +29,16 @@ PROTOCOL = ("METHOD_NAME", "create_frames", "simulate_initial_guess", "simulate_
 
 def simulator_modules(chk):
     m = chk.repo.mod(SIM)
-    tab = m.assign("_SIMULATOR_MODULE")
-    if not isinstance(tab, ast.Dict):
-        raise AnalysisError("_SIMULATOR_MODULE is not a dict literal")
+    from .. import fin as _fin
+    val = _fin.module_table(m, "_SIMULATOR_MODULE", env={a: _fin.FuncRef(a) for a in m.aliases})
+    if not isinstance(val, dict) or not val:
+        raise AnalysisError("_SIMULATOR_MODULE is not a table built from the module's constants")
     out = {}
-    for k, v in zip(tab.keys, tab.values):
-        tgt = m.aliases.get(dotted(v))
+    for k, v in val.items():
+        tgt = m.aliases.get(str(v))
         if tgt not in chk.repo.modules:
-            raise AnalysisError(f"simulator module {dotted(v)} not resolved")
-        out[literal(k)] = chk.repo.modules[tgt]
+            raise AnalysisError(f"simulator module {v} not resolved")
+        out[k] = chk.repo.modules[tgt]
     return m, out
 
 
